@@ -118,7 +118,8 @@ pub fn gen(out: &mut dyn std::io::Write, thorough: bool, seed: u64) {
     use crate::model::{gen_model, gen_text, GenOpts};
     use crate::util::Rng;
     let mut r = Rng::new(seed ^ 0xC19);
-    let opts = GenOpts { windows: &[1, 2, 3, 4], max_ngrams: 5, max_words: 4, max_word_len: 5 };
+    // windows beyond 4 and words of 8 and more characters: merged weight vectors longer than the fixed 8-entry layout
+    let opts = GenOpts { windows: &[1, 2, 3, 4, 5, 9], max_ngrams: 5, max_words: 4, max_word_len: 12 };
     let n = if thorough { 5000 } else { 250 };
     let tool_ok = std::path::Path::new(crate::cli::BIN_DIR).join("manipulate_model").exists();
     let dir = crate::cli::scratch_dir("c19gen");
@@ -150,13 +151,21 @@ pub fn gen(out: &mut dyn std::io::Write, thorough: bool, seed: u64) {
             }
         }
         for _ in 0..r.below(3) {
-            let w: String = (0..r.range(1, 3)).map(|_| *r.pick(&alpha)).collect();
+            let w: String = (0..(if r.chance(1, 3) { r.range(7, 18) } else { r.range(1, 3) })).map(|_| *r.pick(&alpha)).collect();
             if entries.iter().any(|e| e.0 == w) && r.chance(1, 2) {
                 continue; // otherwise: a second record for the same word (their weights add up)
             }
             let l = w.chars().count();
             let n_w = if i % 17 == 0 { l } else { l + 1 };
             entries.push((w, (0..n_w).map(|_| r.range(-40, 40) as i32).collect(), String::new()));
+        }
+        // the text also contains occurrences of the new entries, not at its very start
+        let mut text = text;
+        for e in entries.iter().filter(|e| e.0.chars().all(|c| c != '\0')).take(3) {
+            if r.chance(2, 3) {
+                text.push(*r.pick(&alpha));
+                text.push_str(&e.0);
+            }
         }
         let es = if entries.is_empty() {
             "-".to_string()
